@@ -31,16 +31,49 @@ EXTENDS IqDispatch, Integers, Json, CSV, IOUtils
 TraceLog == ndJsonDeserialize(IOEnv.QXV_TRACE)
 
 VARIABLES l, cid, viol, nviol, ndiv, divs, dflag, ncases, nreq, nresp, nother, nclosed,
-          npend, ncollide, ntdone, ntbyreq
+          npend, ncollide, ntdone, ntbyreq,
+          dm,       \* monitor of the deferred replies: which of them are due, from the logged events only
+          dviol,    \* violations of the deferred-reply predicates
+          ndefer, ndue
+
+dstate == <<dm, dviol, ndefer, ndue>>
 
 tvars == <<vars, l, cid, viol, nviol, ndiv, divs, dflag, ncases, nreq, nresp, nother, nclosed,
-           npend, ncollide, ntdone, ntbyreq>>
+           npend, ncollide, ntdone, ntbyreq, dstate>>
+
+(* --- deferred replies ------------------------------------------------------ *)
+\* Lines of the deferred-reply steps: {"e":action,["nh":n,]"track":[{"tag","id","n"}..],"closed":bool,"ok":bool};
+\* Recv lines carry "track" as well.  A reply is *due* when the event it waits for has been driven to its end:
+\*   offer  -- the application accepted or declined the job;
+\*   hosts  -- a stream host completed the handshake, or the last host of the offer dropped the connection;
+\*   second -- (a second hosts offer during the attempt) at the latest when that attempt is over.
+\* `left` = stream hosts of the offer not yet tried to the end.  Only events that were really performed count.
+DMon0 == [offer |-> FALSE, hosts |-> FALSE, second |-> FALSE, left |-> 0, sec |-> FALSE]
+DMonNext(m, ev) ==
+    IF ~ev.ok THEN m
+    ELSE CASE ev.e \in {"AppAccept", "AppDecline"} -> [m EXCEPT !.offer = TRUE]
+           [] ev.e = "HostsOffer"  -> [m EXCEPT !.left = ev.nh]
+           [] ev.e = "SecondHosts" -> [m EXCEPT !.sec = TRUE]
+           [] ev.e = "HostAccepts" -> [m EXCEPT !.hosts = TRUE, !.left = 0, !.second = m.sec]
+           [] ev.e = "HostCloses"  -> IF m.left = 1 THEN [m EXCEPT !.hosts = TRUE, !.left = 0, !.second = m.sec]
+                                      ELSE [m EXCEPT !.left = m.left - 1]
+           [] OTHER -> m
+Track(ev) == IF "track" \in DOMAIN ev THEN ev.track ELSE <<>>
+DFailed(m, ev) ==
+    LET K == 1..Len(Track(ev))
+        Rec(p, k) == [case |-> cid, line |-> l, prop |-> p, tag |-> ev.track[k].tag, e |-> ev.e, n |-> ev.track[k].n]
+    IN {Rec("DeferredAnswered", k) : k \in {k \in K : ~P_DeferredAnswered(m[ev.track[k].tag], ev.track[k].n)}}
+       \cup {Rec("AtMostOneReply", k) : k \in {k \in K : ~P_AtMostOneReply(ev.track[k].n)}}
+DObs(ev) == [g \in {ev.track[k].tag : k \in 1..Len(Track(ev))} |->
+               LET k == CHOOSE k \in 1..Len(ev.track) : ev.track[k].tag = g IN ev.track[k].n]
+DProjNext(ev) == [g \in DOMAIN DObs(ev) |-> rq'[g].n]
 
 TInit ==
     /\ Init /\ ext = "none"
     /\ l = 1 /\ cid = "" /\ viol = {} /\ nviol = 0 /\ ndiv = 0 /\ divs = <<>> /\ dflag = FALSE /\ ncases = 0
     /\ nreq = 0 /\ nresp = 0 /\ nother = 0 /\ nclosed = 0
     /\ npend = 0 /\ ncollide = 0 /\ ntdone = 0 /\ ntbyreq = 0
+    /\ dm = DMon0 /\ dviol = {} /\ ndefer = 0 /\ ndue = 0
 
 (* --- facts derived from one logged line ----------------------------------- *)
 \* A reply without `to` is handled by the user's server on behalf of the account: it reaches a
@@ -64,14 +97,25 @@ Proj    == [replies |-> last.replies, closed |-> ~open, tdone |-> last.tdone]
 ModelAct(ev) ==
     CASE ev.e = "Recv"        -> Recv(ev.t, ev.p, ev.f, ev.k)
       [] ev.e = "SendRequest" -> SendRequest(ev.peer)
+      [] ev.e = "OfferSI"     -> OfferSI
+      [] ev.e = "AppAccept"   -> AppAccept
+      [] ev.e = "AppDecline"  -> AppDecline
+      [] ev.e = "HostsOffer"  -> HostsOffer(ev.nh)
+      [] ev.e = "SecondHosts" -> SecondHosts
+      [] ev.e = "AbortJob"    -> AbortJob
+      [] ev.e = "HostAccepts" -> HostAccepts
+      [] ev.e = "HostCloses"  -> HostCloses
       [] OTHER                -> FALSE
 
 ResetStep(ev) ==
     /\ Reinit(ev.ext)
     /\ cid' = ev.case /\ dflag' = FALSE /\ ncases' = ncases + 1
     /\ UNCHANGED <<viol, nviol, ndiv, divs, nreq, nresp, nother, nclosed, npend, ncollide, ntdone, ntbyreq>>
+    /\ dm' = DMon0 /\ UNCHANGED <<dviol, ndefer, ndue>>
 
 OpStep(ev) ==
+    \* an ordinary IQ while replies are deferred: nothing becomes due, the counts are still judged
+    /\ dviol' = dviol \cup DFailed(dm, ev) /\ UNCHANGED <<dm, ndefer, ndue>>
     /\ \/ ModelAct(ev)
        \/ (~ENABLED ModelAct(ev)) /\ UNCHANGED vars
     \* one record per (property, extension set, type, payload, sender class, id collides with an outstanding
@@ -105,7 +149,26 @@ ReqStep(ev) ==
     /\ \/ ModelAct(ev)
        \/ (~ENABLED ModelAct(ev)) /\ UNCHANGED vars
     /\ npend' = npend + 1
+    /\ UNCHANGED dstate
     /\ UNCHANGED <<cid, viol, nviol, ndiv, divs, dflag, ncases, nreq, nresp, nother, nclosed, ncollide, ntdone, ntbyreq>>
+
+\* a step of the deferred-reply machinery (application decision, hosts offer, stream host event)
+DeferStep(ev) ==
+    /\ \/ ModelAct(ev)
+       \/ (~ENABLED ModelAct(ev)) /\ UNCHANGED vars
+    /\ dm' = DMonNext(dm, ev)
+    /\ dviol' = dviol \cup DFailed(dm', ev)
+    /\ ndefer' = ndefer + 1
+    /\ ndue' = ndue + Cardinality({g \in DTags : dm'[g] /\ ~dm[g]})
+    /\ LET d == ev.ok /\ DProjNext(ev) # DObs(ev) IN
+        /\ dflag' = (dflag \/ d)
+        /\ ndiv' = IF d /\ ~dflag THEN ndiv + 1 ELSE ndiv
+        /\ divs' = IF d /\ ~dflag /\ Len(divs) < 40
+                   THEN Append(divs, [case |-> cid, line |-> l, ext |-> ext, t |-> ev.e, p |-> "deferred", f |-> "",
+                                      model |-> DProjNext(ev), impl |-> DObs(ev)]) ELSE divs
+    /\ UNCHANGED <<cid, viol, nviol, ncases, nreq, nresp, nother, nclosed, npend, ncollide, ntdone, ntbyreq>>
+
+DeferActs == {"OfferSI", "AppAccept", "AppDecline", "HostsOffer", "SecondHosts", "AbortJob", "HostAccepts", "HostCloses"}
 
 TNext ==
     /\ l <= Len(TraceLog)
@@ -114,13 +177,15 @@ TNext ==
         IF ev.e = "Reset" THEN ResetStep(ev)
         ELSE IF ev.e = "Recv" THEN OpStep(ev)
         ELSE IF ev.e = "SendRequest" THEN ReqStep(ev)
+        ELSE IF ev.e \in DeferActs THEN DeferStep(ev)
         ELSE UNCHANGED <<vars, cid, viol, nviol, ndiv, divs, dflag, ncases, nreq, nresp, nother, nclosed,
-                         npend, ncollide, ntdone, ntbyreq>>
+                         npend, ncollide, ntdone, ntbyreq, dstate>>
 
 TSpec == TInit /\ [][TNext]_tvars
 
 Summary == [cases |-> ncases, lines |-> l - 1, viol |-> viol, nviol |-> nviol, ndiv |-> ndiv, divs |-> divs,
             requests |-> nreq, responses |-> nresp, othertype |-> nother, closed |-> nclosed,
-            tracked |-> npend, idcollisions |-> ncollide, taskdone |-> ntdone, taskdonebyrequest |-> ntbyreq]
+            tracked |-> npend, idcollisions |-> ncollide, taskdone |-> ntdone, taskdonebyrequest |-> ntbyreq,
+            dviol |-> dviol, defersteps |-> ndefer, deferreddue |-> ndue]
 Done == l <= Len(TraceLog) \/ CSVWrite("%1$s", <<ToJson(Summary)>>, IOEnv.QXV_SUMMARY)
 =============================================================================
